@@ -139,6 +139,10 @@ func ParseResponse(data []byte, req *http.Request) (resp *Response, err error) {
 	if err != nil {
 		return nil, errors.Join(errInvalidResponse, fmt.Errorf("failed to read response: %w", err))
 	}
+	// Hop-by-hop fields were removed before the response was stored; a
+	// "Connection: close" here is framing added by DumpResponse, which
+	// ReadResponse only strips for HTTP/1.1 and later.
+	r.Header.Del("Connection")
 	resp.Data = r
 	return resp, nil
 }
